@@ -50,6 +50,8 @@ structure Mon where
   issuedAt : List (ReqId × Nat) := []
   known    : List ConnId := []               -- connections that have been handed out before
   pend     : List ReqId := []                -- requests whose last poll was `Pending`
+  marks    : Nat := 0                        -- `mark` ops seen (2 = every attempt resolved and every
+                                             --   request polled since: nobody may still be pending)
   idx      : Nat := 0
 deriving Repr
 
@@ -84,7 +86,24 @@ def monStep (cfg : Config) (m : Mon) (op : Op) (o : IObs) : Mon × Option String
                             pend := m.pend.filter (· != r) }, v15)
   | .connReady c => ({ m1 with busy := if o.res == .done then m.busy.filter (· != c) else m.busy }, v15)
   | .connClose c => ({ m1 with closed := if (m.closed.lookup c).isSome || o.res != .done then m.closed else (c, m.idx) :: m.closed }, v15)
+  | .mark => ({ m1 with marks := m.marks + 1 }, v15)
   | _ => (m1, v15)
+
+/-- A checkout that is still trying to connect by itself. -/
+def dialing (c : Checkout) : Bool := c.inner == .connecting || c.inner == .delayDrop || c.inner == .delayed
+
+/-- **C03 (nobody is stranded) as a check on a trace.** A checkout that started no attempt of its own
+    because another one was in flight (`Waiting::Connecting`) may be `Pending` only while that attempt
+    is still in flight, i.e. while the origin's in-progress marker is set. Once the marker is gone
+    (the attempt succeeded, failed or was abandoned) it must have been served or released. -/
+def strandedAt (s : State) (r : ReqId) (res : Obs) : Bool :=
+  res == .pending &&
+  (match s.co r with
+   | some c =>
+     c.alive &&
+     ((c.inner == .waiting && !s.connecting.contains c.token) ||          -- nobody is connecting for it any more
+      (dialing c && (s.dial r).started && (s.dial r).outcome.isSome))    -- its own attempt has terminated
+   | none => false)
 
 /-- Classify the first point where the implementation departs from the model (whose behaviour the
     property theorems cover): which property does the implementation's behaviour break, if any?
